@@ -107,19 +107,54 @@ Proof. split; reflexivity. Qed.
 
 
 (* parse.Parser: two fields are configuration (written by their setters only), three are accumulators that view inference
-   stores into; nothing else of a Parser is written after NewParser.  The accumulators are what a Parser value shared by two
-   compilations would share (Infer.p_lets models LetTypes; the guard is the one Infer.stmt_step has) *)
+   stores into and that - since fixes/C07-5 - Parse replaces by fresh maps before it does anything else; nothing else of a
+   Parser is written after NewParser.  The accumulators are what a Parser value shared by two compilations AT ONCE would share
+   (Infer.p_lets models LetTypes, Infer.p_msgs Messages; the guard is the one Infer.stmt_step has) *)
 Lemma parser_fields_are : parser_field_writers = [
-  ("AssignTypes", ["inferExprType"]); ("LetTypes", ["inferExprType"]); ("Messages", ["inferExprType"]);
+  ("AssignTypes", ["Parse"; "inferExprType"]); ("LetTypes", ["Parse"; "inferExprType"]); ("Messages", ["Parse"; "inferExprType"]);
   ("allowAbsoluteImport", ["RestrictToLocalImport"]); ("Settings", ["Set"]) ].
 Proof. reflexivity. Qed.
-Lemma let_guard_is : let_guard = "seen:skip;new:infer+record".
+(* second pass: the body of Parser.Parse BEGINS with `p.AssignTypes = <empty map>`, `p.LetTypes = ...`, `p.Messages = ...`
+   - each under `if p.F == nil || len(p.F) > 0`, so that compilations that record nothing write nothing to the Parser -
+   (nothing before them, so nothing of an earlier compilation is read), and view inference is reached through Parse only:
+   inferExprType <- inferTypes <- postProcess <- finishModule <- parseSpecs <- Parse *)
+Lemma parse_starts_fresh : parse_reset_fields = ["AssignTypes"; "LetTypes"; "Messages"].
 Proof. reflexivity. Qed.
-(* the accumulators are mentioned by inferExprType and their getters only; of the three, inferExprType READS LetTypes (the guard
-   above) - AssignTypes is stored into, Messages appended to: neither can reach the module *)
+Lemma parse_resets_is : current_resets = true.
+Proof. reflexivity. Qed.
+Lemma infer_entry_is : infer_entry = [
+  ("inferExprType", ["inferExprType"; "inferTypes"]); ("inferTypes", ["postProcess"]); ("postProcess", ["finishModule"]);
+  ("finishModule", ["parseSpecs"]); ("parseSpecs", ["Parse"]) ].
+Proof. reflexivity. Qed.
+Lemma let_guard_is : let_guard = "seen:message+skip;new:infer+record".
+Proof. reflexivity. Qed.
+(* the accumulators are mentioned by Parse (the reset), inferExprType and their getters only; of the three, inferExprType READS
+   LetTypes (the guard above) - AssignTypes is stored into, Messages appended to: neither can reach the module *)
 Lemma parser_field_users_are : parser_field_users = [
-  ("AssignTypes", ["inferExprType"; "GetAssigns"]); ("LetTypes", ["inferExprType"; "GetLets"]);
-  ("Messages", ["inferExprType"; "GetMessages"]) ].
+  ("AssignTypes", ["Parse"; "inferExprType"; "GetAssigns"]); ("LetTypes", ["Parse"; "inferExprType"; "GetLets"]);
+  ("Messages", ["Parse"; "inferExprType"; "GetMessages"]) ].
+Proof. reflexivity. Qed.
+
+(* second pass: fixTypeRefScope statement by statement (Infer.fix_ref is its transliteration for references with one
+   application part and one type part: the first seven statements are the early returns for other shapes and for a reference
+   that was made local before), and the order of the calls inside the application loop of postProcess: parameter references
+   BEFORE the mixins, field references after them, then inferTypes (Infer.app_step) *)
+Lemma fix_ref_shape_is : fix_ref_shape = [
+  "if ref == nil { return }";
+  "appPath := ref.GetAppname().GetPart()";
+  "if len(appPath) > 1 { return }";
+  "typePath := ref.GetPath()";
+  "if len(typePath) == 0 { return }";
+  "if len(appPath) == 0 && len(typePath) == 1 { return }";
+  "if len(appPath) == 0 && len(typePath) > 1 { return }";
+  "appName, typeName := appPath[0], typePath[0]";
+  "if currApp == appName { return }";
+  "if app, exists := mod.Apps[appName]; exists { if _, exists := app.Types[typeName]; exists { return } }";
+  "if app, exists := mod.Apps[currApp]; exists { if _, exists := app.Types[appName]; exists { ref.Appname = nil ref.Path = append([]string{appName}, typePath...) return } }" ].
+Proof. reflexivity. Qed.
+Lemma post_loop_calls_are : post_loop_calls = [
+  "fixParamTypeRef"; "range app.Mixin2"; "GetApp"; "range srcApp.Types"; "range srcApp.Views"; "range app.Types"; "range attrs";
+  "fixTypeRefScope"; "inferTypes"; "collectorPubSubCalls"; "renestTypes" ].
 Proof. reflexivity. Qed.
 
 (* ... and no code under pkg/ and cmd/ shares one: every NewParser() / NewTreeShapeListener() value is a local of the
@@ -193,3 +228,18 @@ Theorem current_pp_order_independent m ordA1 ordA2 ordV1 ordV2 lets0 :
   map_order ordA1 -> map_order ordA2 -> vmap_order ordV1 -> vmap_order ordV2 ->
   pp current_flags ordA1 ordV1 lets0 m = pp current_flags ordA2 ordV2 lets0 m.
 Proof. apply pp_order_independent; [exact apps_sorted|exact views_sorted]. Qed.
+
+(* second pass: at the current source a parse.Parser that is used again - whatever it compiled before - returns for every
+   call made after the previous one has returned what a parser of its own returns, and holds afterwards what a fresh parser
+   would hold (InferProps.reused_parser_is_fresh at Gen's parse_reset_fields) *)
+Theorem current_reused_parser_is_fresh fl ordA ordV mods ps sched : sequential sched = true ->
+  snd (run_sched current_resets fl ordA ordV mods ps sched) = map (fun g => (g, compile_fresh fl ordA ordV (mods g))) (posts sched) /\
+  fst (run_sched current_resets fl ordA ordV mods ps sched) =
+    match posts sched with [] => ps | g :: gs => parser_after (compile_fresh fl ordA ordV (mods (last gs g))) end.
+Proof. rewrite parse_resets_is. apply reused_parser_is_fresh. Qed.
+
+(* second pass: the references fixTypeRefScope rewrites are part of the state current_pp_order_independent is about *)
+Theorem current_refs_order_independent m ordA1 ordA2 ordV1 ordV2 lets0 :
+  map_order ordA1 -> map_order ordA2 -> vmap_order ordV1 -> vmap_order ordV2 ->
+  p_local (pp current_flags ordA1 ordV1 lets0 m) = p_local (pp current_flags ordA2 ordV2 lets0 m).
+Proof. intros. f_equal. apply current_pp_order_independent; assumption. Qed.
